@@ -1809,7 +1809,10 @@ func (c *cachedDnsForwarder) endUse() {
 		return
 	}
 	c.touch(time.Now())
-	if c.inFlight.Add(-1) == 0 && c.retired.Load() {
+	// The count may have left zero again by the time retired is read here (a query
+	// admitted before retire() ran): only the user that still finds nobody in flight
+	// after seeing the retirement may close, or that query would lose its forwarder.
+	if c.inFlight.Add(-1) == 0 && c.retired.Load() && c.inFlight.Load() == 0 {
 		_ = c.closeNow()
 	}
 }
